@@ -578,6 +578,10 @@ namespace {
                 // a control point value is normally read right away (the notification)
                 if ( *verif::range< int >( 0, 3 ) != 0 )
                     g.push_back( gen_simple( CPREAD ) );
+                // the Read procedure sends its data by indications
+                if ( !g[ 0 ].bytes.empty() && g[ 0 ].bytes[ 0 ] == OPC_READ )
+                    for ( int n = *verif::range< int >( 0, 4 ); n > 0; --n )
+                        g.push_back( gen_simple( DREAD ) );
                 break;
             case DATA: g.push_back( gen_data( cf ) ); break;
             case CPREAD: g.push_back( gen_simple( CPREAD ) ); break;
@@ -639,7 +643,7 @@ namespace {
         const addr_t               P = cf.page;
         const bool stale_excluded = verif::opt_has( "exclude", "F-39d" );
 
-        bool near_boundary = false, odd_length = false;
+        bool near_boundary = false, odd_length = false, last_page_flashed = false, start_at_end = false;
         unsigned pages_flashed = 0, overruns = 0, flushes = 0, reads_done = 0, stale = 0, multi_page_writes = 0, cp_rejected = 0, run_reset = 0;
 
         auto note_addr = [&]( addr_t a ) {
@@ -665,6 +669,9 @@ namespace {
                 m.dirty.erase( x );
             }
             ++pages_flashed;
+            for ( auto& r : cf.regions )
+                if ( e.size && e.addr + ( e.size - 1 ) == r.end - 1 )
+                    last_page_flashed = true;
             m.pending.push_back( { m.session, m.crc } );
         };
 
@@ -677,6 +684,19 @@ namespace {
             {
             case CP:
             {
+                if ( stale_excluded && !m.pending.empty() && !o.bytes.empty() && ( o.bytes[ 0 ] == OPC_START_FLASH || o.bytes[ 0 ] == OPC_STOP_FLASH || o.bytes[ 0 ] == OPC_VERSION || o.bytes[ 0 ] == OPC_SIZES ) )
+                {
+                    // F-39d excluded: the flash hardware is idle when a procedure resets the page buffers
+                    rep.excluded = true;
+                    w.op_name    = "flash completed (progress)";
+                    while ( !m.pending.empty() )
+                    {
+                        m.pending.pop_front();
+                        std::uint8_t out[ 20 ];
+                        std::size_t  os = 0;
+                        boot->progress( sizeof out, out, os );
+                    }
+                }
                 w.op_name = "cp " + describe_cp( o.bytes );
                 if ( o.flag )
                     rep.excluded = true;
@@ -686,6 +706,10 @@ namespace {
                 const auto rc = boot->write_cp( o.bytes.size(), value.get() );
                 const bool ok = rc.first == 0;
                 const int  opc = o.bytes.empty() ? -1 : o.bytes[ 0 ];
+                if ( opc == OPC_START_FLASH && o.bytes.size() == nominal_length( opc ) )
+                    for ( auto& r : cf.regions )
+                        if ( get_addr( o.bytes, 1 ) == r.end )
+                            start_at_end = true;
                 const std::size_t nom = opc >= 0 && opc <= OPC_READ ? nominal_length( opc ) : 1;
                 if ( o.bytes.size() != nom )
                     odd_length = true;
@@ -719,10 +743,6 @@ namespace {
                 // what the client now believes
                 if ( ok && opc == OPC_START_FLASH && o.bytes.size() >= nom )
                 {
-                    if ( !m.pending.empty() && stale_excluded )
-                    {
-                        // cannot happen: the exclusion drains completions before (see below)
-                    }
                     m.active = true;
                     m.pure   = true;
                     ++m.session;
@@ -903,6 +923,9 @@ namespace {
         rep.label_if( near_boundary, "address-within-a-page-of-a-region-boundary" );
         rep.label_if( odd_length, "cp-length!=nominal" );
         rep.label_if( pages_flashed >= 1, "pages-flashed>=1" );
+        rep.label_if( pages_flashed >= 1, verif::cat( "pages-flashed>=1:page=", cf.page ) );
+        rep.label_if( last_page_flashed, "last-page-of-a-region-flashed" );
+        rep.label_if( start_at_end, "start-flash-at-region-end-requested" );
         rep.label_if( pages_flashed >= 3, "pages-flashed>=3" );
         rep.label_if( multi_page_writes != 0, "one-write-spans-pages" );
         rep.label_if( overruns != 0, "buffer-overrun-reported" );
